@@ -29,6 +29,9 @@ def closed_oplist_rule(chk: Check, ctx: Any, rule: str, thorough: bool) -> None:
         cases.append(("macros:" + name, main, files, lookup, "exps"))
     cases.append(("macros:map-project", MAP_MAIN, MAP_PROJECT, [], "exps"))
     cases.append(("routine-kinds", "def 0 { a(); }\ndef 1 for actor 3 { alias previous; }\ndef 2 for object OBJ { b(); if ($V == 1) { jump @x; } c(); §x; }\ndef 3 { alias previous; }", {}, [], "exps"))
+    cases.append(("routine-id-gaps", "def 0 { a(); }\ndef 3 for actor 2 { b(); if ($V == 1) { jump @x; } c(); §x; }\ndef 7 { alias previous; }\ndef 8 { d(); }", {}, [], "exps"))
+    cases.append(("first-routine-id-not-zero", "def 2 { a(); while ($V < 2) { b(); } }\ndef 5 { c(); }", {}, [], "exps"))
+    cases.append(("ssbscript-routine-id-gaps", "def 1 {\n    a(1);\n    @l;\n    b();\n    Jump(@l);\n}\ndef 4 for actor 2 {\n    c();\n}\n", {}, [], "ssbs"))
     cases.append(("coroutines", "coro A { a(); }\ncoro B { alias previous; }\ncoro C { forever { c(); if ($V == 1) { break_loop; } } }", {}, [], "exps"))
     cases.append(("ssbscript", "def 0 {\n    a(1);\n    @l;\n    Branch($V, 1, @m);\n    b();\n    Jump(@l);\n    @m;\n    End();\n}\ncoro X {\n    Call(@l);\n    Return();\n}\n", {}, [], "ssbs"))
     bad: list[tuple[str, str, str]] = []
